@@ -334,6 +334,9 @@ def get_attr(self, base: Term, name: str, st: State, node=None) -> Term:
                 return o.attrs[name]
             if name == "__class__" and o.cls is not None:
                 return mk("class", o.cls.qualname)
+            if o.cls is not None and o.origin is not None and o.cls.qualname in self.replaced_bases and isinstance((o.cls.lookup(name) or (None, None))[1], FuncInfo):
+                # symbolic object typed by an abstract registry base: dispatched dynamically to the registered class
+                return mk("attr", o.origin, name)
             if o.cls is not None:
                 r = o.cls.lookup(name)
                 if r is not None:
@@ -423,9 +426,38 @@ def get_attr(self, base: Term, name: str, st: State, node=None) -> Term:
         return mk("extmeth", selft, name, "object")
     if op in ("const", "static"):
         return mk("bmeth", base, name)
+    if op == "elem":
+        # element of a list whose members are known heap objects: push the attribute read through
+        alts = _ref_alternatives(base.args[0])
+        if alts and all(self.obj(st, a) is not None and self.obj(st, a).kind == "obj" for a in alts):
+            vals = []
+            for a in alts:
+                vals.append(self.get_attr(a, name, st, node))
+            r = vals[0]
+            for v in vals[1:]:
+                if v is not r:
+                    r = mk("phi", mk("sym", "which", base.args[1]), r, v)
+            return r if all(v.op in ("ref", "const") for v in vals) and len({v.uid for v in vals}) == 1 else mk("elem", r, base.args[1]) if r.op != "ref" else r
     if op == "bound" and name == "__name__":
         return C(base.args[0].split(".")[-1])
     return mk("attr", base, name)
+
+
+def _ref_alternatives(t: Term):
+    """heap references a term may denote (through phi), or None when some alternative is not a reference"""
+    t = t.args[0] if t.op == "snap" else t
+    if t.op == "ref":
+        return [t]
+    if t.op == "phi":
+        a, b = _ref_alternatives(t.args[1]), _ref_alternatives(t.args[2])
+        if a is None or b is None:
+            return None
+        out = list(a)
+        for x in b:
+            if not any(x is y for y in out):
+                out.append(x)
+        return out
+    return None
 
 
 def _class_attr_value(self, owner: ClassInfo, name: str, expr, st: State) -> Term:
@@ -541,7 +573,25 @@ def do_subscript(self, base: Term, idx: Optional[Term], sl, st: State, node) -> 
         member = o.cls.lookup("__getitem__")[1]
         if isinstance(member, FuncInfo):
             return self.call_function(member, [base, idx], {}, st, node, self_term=base)
-    ev = self.emit("subscript", node, st, base=base, index=idx)
+    sure_ok = False
+    if base.op == "elem" and is_const(idx):
+        alts = _ref_alternatives(base.args[0])
+        if alts:
+            objs = [self.obj(st, a) for a in alts]
+            if all(x is not None and x.kind == "dict" for x in objs):
+                try:
+                    sure_ok = all((cval(idx) in x.kv) if x.exact else (cval(idx) in (x.sure or ())) for x in objs)
+                except TypeError:
+                    sure_ok = False
+    if o is not None and o.kind == "dict" and not o.exact and o.sure and is_const(idx):
+        try:
+            sure_ok = cval(idx) in o.sure
+        except TypeError:
+            sure_ok = False
+    ev = self.emit("subscript", node, st, base=base, index=idx, certain_ok=sure_ok)
+    if is_const(idx) and cval(idx) in (0, -1) and not isinstance(cval(idx), bool):
+        # the lookup succeeded on the continuing path: the container is not empty
+        st.facts = st.facts + ((mk("truthy", base if o is None else base), True),)
     if o is not None:
         if o.kind == "dict" and not o.exact:
             # value written under the same key term?
@@ -759,6 +809,7 @@ def call_function(self, fi: FuncInfo, args, kwargs, st: State, node, self_term=N
         _havoc_args(self, args, st)
         return res
     bind = self.bind_params(fi, args, kwargs, st, node)
+    self._note_type_hints(fi, bind)
     ev0 = self.emit("call", node, st, callee=fi, args=tuple(args), kwargs=dict(kwargs), result=None, inlined=True, recv=self_term, site=site)
     saved_ctx = st.ctx
     st.ctx = st.ctx + (("call", site, fi.qualname),)
@@ -777,6 +828,23 @@ def call_function(self, fi: FuncInfo, args, kwargs, st: State, node, self_term=N
     return val
 
 
+def _note_type_hints(self, fi: FuncInfo, bind):
+    """annotations of the callee's parameters type the argument terms bound to them"""
+    from .types import ann_type
+
+    if not isinstance(fi.node, (ast.FunctionDef, ast.AsyncFunctionDef)):
+        return
+    for a in fi.node.args.posonlyargs + fi.node.args.args + fi.node.args.kwonlyargs:
+        if a.annotation is not None and a.arg in bind:
+            t = ann_type(self, fi.module, a.annotation)
+            if t is not None and "?" not in t:
+                v = bind[a.arg]
+                while v.op == "snap":
+                    v = v.args[0]
+                if v.op not in ("const", "ref"):
+                    self.type_hints.setdefault(v.uid, t)
+
+
 def _havoc_args(self, args, st):
     """containers handed to a call that is not analysed in line may be mutated by it"""
     for a in args:
@@ -787,6 +855,7 @@ def _havoc_args(self, args, st):
                     o.writes = [(C(k), v, o.created_ctx) for k, v in o.kv.items()]
                     o.kv = {}
                     o.exact = False
+                o.sure = set()
                 o.writes.append((sym("callee_key"), sym("callee_value"), st.ctx))
             else:
                 if o.exact:
